@@ -198,6 +198,7 @@ type Prog struct {
 	Main   string `json:"main"`
 	Scope  []KV   `json:"scope,omitempty"` // caller's scope before evaluation
 	Family string `json:"family,omitempty"`
+	Src    string `json:"src,omitempty"`   // when set: the worker compiles this Sysl source with the real parser instead of building the protobuf
 	Typed  bool   `json:"typed,omitempty"` // built by the typed generator inside the modelled fragment: judged by the oracle
 }
 
